@@ -35,9 +35,12 @@ func HeightPool() []int64 { return []int64{0, 1, math.MaxInt64} }
 // evaluations), written out here so that the pool does not depend on shcrypto.
 var groupOrder, _ = new(big.Int).SetString("73eda753299d7d483339d80809a1d80553bda402fffe5bfeffffffff00000001", 16)
 
-// BigPool: 0, 1, order-1.
+// BigPool: 0, 1, order-1, and integers that do not fit into 32 bytes (shuttermint
+// accepts evaluations of any length): 2^256, 2^256+5, 2^512-1.
 func BigPool() []*big.Int {
-	return []*big.Int{big.NewInt(0), big.NewInt(1), new(big.Int).Sub(groupOrder, big.NewInt(1))}
+	two256 := new(big.Int).Lsh(big.NewInt(1), 256)
+	return []*big.Int{big.NewInt(0), big.NewInt(1), new(big.Int).Sub(groupOrder, big.NewInt(1)),
+		two256, new(big.Int).Add(two256, big.NewInt(5)), new(big.Int).Sub(new(big.Int).Lsh(big.NewInt(1), 512), big.NewInt(1))}
 }
 
 // AddrPool: zero address, two participants, all-ones, an address with leading zero bytes.
